@@ -163,14 +163,14 @@ func c18DecodeCases(c *Ctx, item string, in []byte, class string) {
 			c18CanonOracle(c, item, kind, in, val, consumed, shortBody)
 			// the same bytes decoded into a receiver that already holds an earlier (different) decoding: the result
 			// and the re-encoding must be those of the fresh decode
-			if prev := c18Used[item]; prev != nil && item != "log" {
+			if prev := c18Used[item]; prev != nil {
 				res2, val2, _ := c18DecodeInto(item, kind, in, prev.val)
 				c.Count("rd/" + item + "/into-used-value")
 				if res2 != res {
-					c.Find("c18/eventlog/"+item+".Unmarshal/used-receiver/result-differs", fmt.Sprintf("decoding into a value that held the decoding of %s gives %q, a fresh value gives %q", hx(prev.in), res2, res), hx(in))
+					c.Find("c18/eventlog/"+item+".Unmarshal/used-receiver/result-differs", fmt.Sprintf("decoding into a value that held the decoding of %s gives %q, a fresh value gives %q", hx(prev.in), res2, res), fmt.Sprintf("c18 op=rdinto s=%s kind=%s prev=%s b=%s", item, kind, hx(prev.in), hx(in)))
 				} else if enc1, e1 := c18Encode(val); e1 == nil {
 					if enc2, e2 := c18Encode(val2); e2 != nil || !bytes.Equal(enc1, enc2) {
-						c.Find("c18/eventlog/"+item+".Unmarshal/used-receiver/reencode-differs", fmt.Sprintf("decoding into a value that held the decoding of %s re-encodes to %s, a fresh value to %s", hx(prev.in), hx(enc2), hx(enc1)), hx(in))
+						c.Find("c18/eventlog/"+item+".Unmarshal/used-receiver/reencode-differs", fmt.Sprintf("decoding into a value that held the decoding of %s re-encodes to %s, a fresh value to %s", hx(prev.in), hx(enc2), hx(enc1)), fmt.Sprintf("c18 op=rdinto s=%s kind=%s prev=%s b=%s", item, kind, hx(prev.in), hx(in)))
 					}
 				}
 			}
